@@ -7,7 +7,7 @@
    definitions TRANSLATED from qcow2.py / c_qcow2.py (Gen/Qcow2Fun.v). *)
 From Coq Require Import ZArith List Bool.
 From DH Require Import Base.Plan Base.Table Gen.Consts Gen.Qcow2Fun.
-From DH Require Import Spec.Qcow2 Model.Qcow2 Proofs.Qcow2Bits Proofs.Qcow2Class Proofs.Qcow2.
+From DH Require Import Spec.Qcow2 Model.Qcow2 Proofs.Qcow2Bits Proofs.Qcow2Class Proofs.Qcow2 Proofs.Qcow2Total.
 Import ListNotations.
 Open Scope Z_scope.
 
@@ -39,6 +39,20 @@ Theorem C01_read_backend :
   srcs_of p = map (guest_src im) (zseq off (Z.min len (size_of im - off))).
 Proof. exact qcow2_read_correct. Qed.
 Print Assumptions C01_read_backend.
+
+(* 2b. existence: on a specification-CONFORMANT image (Spec.conformant: L1 covers the disk, referenced L2
+   tables lie in the file, extended entries are well formed) no exception is raised: every request that starts
+   inside the disk — even one running past its end, as AlignedStream issues — returns a plan, and the plan is
+   exactly the min(len, size - off) guest bytes (the shape of C04_dyn_read_correct) *)
+Theorem C01_read_total :
+  forall im off len,
+  wf_image im -> conformant (spec_of im) (size_of im) ->
+  0 <= off < size_of im -> 0 < len ->
+  let n := Z.min len (size_of im - off) in
+  exists p, qcow2_read im (S (Z.to_nat n)) off len = Ok p /\
+            srcs_of p = map (guest_src im) (zseq off n).
+Proof. exact qcow2_read_total. Qed.
+Print Assumptions C01_read_total.
 
 (* 3. progress: whatever the tables contain, the loop ends within `length` iterations (it never spins) *)
 Theorem C01_progress :
@@ -133,3 +147,6 @@ Example C01_nonvacuous_std : wf_image ex_std /\
   qcow2_read ex_std 100 0 100000 =
   Ok [SInfl 20000 0 512; SZero 512; SZero 30720; SFile 8192 1024; SFile 9216 1024; SZero 1948].
 Proof. split; [exact ex_std_wf|exact ex_std_read]. Qed.
+
+Example C01_nonvacuous_conformant : wf_image ex_std /\ conformant (spec_of ex_std) (size_of ex_std).
+Proof. split; [exact ex_std_wf|exact ex_std_conformant]. Qed.
